@@ -93,7 +93,7 @@ func TestC09Stage(t *testing.T) {
 // C20: cleaning removes only what has been delivered.
 func TestC20Stage(t *testing.T) {
 	vt.CheckBubble(t, "C20", func(t *vt.T) {
-		p := Profile{Prop: "C20", MaxFiles: 4, Prev: []string{"none", "chain"}[t.Pick("prevMode", 2)], Faults: t.Bool("faults"),
+		p := Profile{Prop: "C20", MaxFiles: 4, Prev: []string{"none", "none", "chain"}[t.Pick("prevMode", 3)], Faults: t.Bool("faults"),
 			Restarts: t.Bool("restarts"), Dups: true, Clean: true, Reuse: true, MaxSteps: 50, LongWaits: true}
 		runScenario(t, p, func(s *Scenario) bool { return false }) // set by checkClean
 	})
